@@ -105,6 +105,18 @@ def c15_runList : List MOp → MState → List MRet → Nat → List MRet × MSt
     | some (r, s') => c15_runList rest s' (r :: acc) (i + 1)
     | none => (acc.reverse, s, i)
 
+/-- number of `matchRanks` calls that took effect at once (a late match) -/
+def c15_lateMatches : List MOp → MState → Nat → Nat
+  | [], _, n => n
+  | op :: rest, s, n =>
+    match step op s with
+    | some (_, s') =>
+      let late := match op with
+        | .matchRanks _ _ => s'.rankMatches.length != s.rankMatches.length
+        | _ => false
+      c15_lateMatches rest s' (if late then n + 1 else n)
+    | none => n
+
 /-! ### executable specs evaluated on the implementation's observations -/
 
 /-- counters a session must show: the sum of its `incCount` calls, per stripped line and metric -/
@@ -166,6 +178,7 @@ def handleApi (j : Json) : Except String Verdict := do
     (if !agreeS then "class attributes / files differ from model; " else "")
   let mut spec := true
   let mut tags : List String := []
+  if c15_lateMatches ops MState.init 0 > 0 then tags := tags ++ ["late-match"]
   if ierr < 0 then
     -- exact counters: what dump() shows is the sum of the incCount calls of the last session
     let sess := c15_lastSession ops
